@@ -235,10 +235,12 @@ func (store *fileStore) setSession() error {
 	if _, err := store.sessionFile.Write(data); err != nil {
 		return fmt.Errorf("unable to write to file: %s: %s", store.sessionFname, err.Error())
 	}
+	verifCrashPoint("setSession.written", store.sessionFname)
 	if store.fileSync {
 		if err := store.sessionFile.Sync(); err != nil {
 			return fmt.Errorf("unable to flush file: %s: %s", store.sessionFname, err.Error())
 		}
+		verifCrashPoint("setSession.synced", store.sessionFname)
 	}
 	return nil
 }
@@ -252,10 +254,12 @@ func (store *fileStore) setSeqNum(f *os.File, seqNum int) error {
 	if _, err := fmt.Fprintf(f, "%019d", seqNum); err != nil {
 		return fmt.Errorf("unable to write to file: %s: %s", f.Name(), err.Error())
 	}
+	verifCrashPoint("setSeqNum.written", f.Name())
 	if store.fileSync {
 		if err := f.Sync(); err != nil {
 			return fmt.Errorf("unable to flush file: %s: %s", f.Name(), err.Error())
 		}
+		verifCrashPoint("setSeqNum.synced", f.Name())
 	}
 	return nil
 }
@@ -324,10 +328,12 @@ func (store *fileStore) SaveMessage(seqNum int, msg []byte) error {
 	if _, err := fmt.Fprintf(store.headerFile, "%d,%d,%d\n", seqNum, offset, len(msg)); err != nil {
 		return fmt.Errorf("unable to write to file: %s: %s", store.headerFname, err.Error())
 	}
+	verifCrashPoint("SaveMessage.headerWritten", store.headerFname)
 
 	if _, err := store.bodyFile.Write(msg); err != nil {
 		return fmt.Errorf("unable to write to file: %s: %s", store.bodyFname, err.Error())
 	}
+	verifCrashPoint("SaveMessage.bodyWritten", store.bodyFname)
 	if store.fileSync {
 		return store.syncBodyAndHeaderFilesLocked()
 	}
@@ -339,6 +345,7 @@ func (store *fileStore) SaveMessageAndIncrNextSenderMsgSeqNum(seqNum int, msg []
 	if err != nil {
 		return err
 	}
+	verifCrashPoint("SaveMessageAndIncr.between", "")
 	return store.IncrNextSenderMsgSeqNum()
 }
 
@@ -348,6 +355,7 @@ func (store *fileStore) syncBodyAndHeaderFilesLocked() error {
 	} else if err = store.headerFile.Sync(); err != nil {
 		return fmt.Errorf("unable to flush file: %s: %s", store.headerFname, err.Error())
 	}
+	verifCrashPoint("sync.bodyAndHeader", "")
 	return nil
 }
 
